@@ -15,6 +15,7 @@ CONSTANTS
   PeerFaults = {}
   DeadlineBeforeLock = FALSE
   NoGuard = FALSE
+  GuardPerClient = FALSE
   RearmPerRead = FALSE
   NoCloseOnError = FALSE
 CHECK_DEADLOCK FALSE
